@@ -482,6 +482,11 @@ def check(run):
     tl_inputs = [
         ('vector of int, count 2^32-1, no items', tid(lines[0][1]) + b'\xff\xff\xff\xff'),
         ('vector of int, count 2^32-1, one item', tid(lines[0][1]) + b'\xff\xff\xff\xff' + b'\x01\x00\x00\x00'),
+        ('vector of int, count 2^32-1, the only item cut short (2 of 4 bytes)', tid(lines[0][1]) + b'\xff\xff\xff\xff' + b'\x01\x00'),
+        ('vector of int, count 2^32-1, one item and a half', tid(lines[0][1]) + b'\xff\xff\xff\xff' + b'\x01\x00\x00\x00\x02'),
+        ('vector of int, count field cut short (3 of 4 bytes, all ones)', tid(lines[0][1]) + b'\xff\xff\xff'),
+        ('vector of bare objects, count 2^32-1, one item and a half', tid(lines[1][1]) + b'\xff\xff\xff\xff' + b'\x01\x00\x00\x00\x02\x00'),
+        ('vector of bytes, count 2^32-1, one string whose announced length exceeds the data', tid(lines[5][1]) + b'\xff\xff\xff\xff' + b'\x0b' + b'abc'),
         ('vector of bare objects, count 2^32-1, no items', tid(lines[1][1]) + b'\xff\xff\xff\xff'),
         ('vector of boxed objects, count 2^32-1, no items', tid(lines[3][1]) + b'\xff\xff\xff\xff'),
         ('vector of bytes, count 2^32-1, no items', tid(lines[5][1]) + b'\xff\xff\xff\xff'),
